@@ -799,7 +799,173 @@ def extra_c08(V, rng, thorough, stats):
     judge_plain(V, 'C08', plain_sem_traces(cases), stats)
 
 
+# ======================================================================= implementation model
+
+def model_phase(V, prop, pipes, thorough, kind='int', deviations=(), stats=None):
+    """TLC on spec/MuxSystem.tla for the given pipelines:
+      * exhaustive: every interleaving / key re-use history within the bounds, invariants
+        ContractsHold (layer-A contracts) and DeathJustified;
+      * for each named deviation (a defect repaired in rxsci, re-introduced in the model)
+        the same run must be VIOLATED, otherwise the invariant is vacuous for it;
+      * simulation beyond the exhaustive bounds with behaviour output; the behaviours are
+        replayed on the real code and compared log for log with the model.
+    Returns (summaries, replay cases, model logs by case)."""
+    out = []
+    with C.scratch('rxsci-verif.pipes.') as d:
+        pf = os.path.join(d, 'pipes.json')
+        with open(pf, 'w') as f:
+            json.dump(pipes, f)
+        base = dict(KeyIdx={0, 1}, ValSet={0, 1, 2} if kind == 'int' else {0, 1, 2},
+                    ItemKind=kind, MaxEvents=7 if thorough else 6, MaxLives=2, Emit_=False,
+                    Deviations=C.Raw('{}'))
+        if kind == 'int':
+            base['ValSet'] = {0, 1, 2} if thorough else {0, 1}
+        else:
+            base['ValSet'] = {0, 1, 2} if thorough else {0, 2}
+            base['MaxEvents'] = 6 if thorough else 5
+
+        def exhaustive():
+            return C.run_tlc('MuxSystem', C.cfg(constants=base, invariants=['ContractsHold', 'DeathJustified']),
+                             workers=8, env={'PIPES_FILE': pf}, timeout=3000)
+
+        def deviation(dev):
+            c = dict(base)
+            c['Deviations'] = {dev}
+            return C.run_tlc('MuxSystem', C.cfg(constants=c, invariants=['ContractsHold']),
+                             workers=4, env={'PIPES_FILE': pf}, timeout=3000)
+
+        def simulate():
+            c = dict(base, KeyIdx={0, 1, 2}, ValSet={0, 1, 2, 3}, MaxEvents=12, MaxLives=3, Emit_=True)
+            return C.run_tlc('MuxSystem', C.cfg(constants=c, invariants=['ContractsHold', 'EmitBehaviour']),
+                             workers=1, env={'PIPES_FILE': pf}, simulate='num=%d' % (600 if thorough else 120),
+                             depth=14, tlc_seed=C.seed() + 5, timeout=600)
+        res = C.par([exhaustive] + [lambda dv=dv: deviation(dv) for dv in deviations] + [simulate])
+    r = res[0]
+    if r.violated:
+        raise C.MachineryError('implementation model violates %s (the model and the contracts '
+                               'disagree: one of them misrepresents the code):\n%s'
+                               % (r.violated, r.error_trace))
+    out.append({'module': 'MuxSystem', 'pipelines': len(pipes), 'constants': {k: str(v) for k, v in base.items()},
+                **r.summary()})
+    for dv, rd in zip(deviations, res[1:1 + len(deviations)]):
+        if rd.violated != 'ContractsHold':
+            raise C.MachineryError('deviation %r of the implementation model is not rejected by the '
+                                   'contracts: the invariant is vacuous for it' % dv)
+        out.append({'module': 'MuxSystem', 'deviation': dv, 'expected_violation_found': True, **rd.summary()})
+    sim = res[-1]
+    if sim.violated:
+        raise C.MachineryError('implementation model violates %s in simulation:\n%s'
+                               % (sim.violated, sim.error_trace))
+    cases, model_logs = [], []
+    seen = set()
+    for b in C.extract_printed(sim.stdout, 'BEH'):
+        _, pid, src, dead, logs = b
+        key = json.dumps([pid, src])
+        if key in seen:
+            continue
+        seen.add(key)
+        evs = []
+        for (t, k, v) in src:
+            e = {'t': t, 'k': k}
+            if t == 'n':
+                e['v'] = v
+            evs.append(e)
+        livek = set()
+        for e in evs:
+            if e['t'] == 'c':
+                livek.add(e['k'][0])
+            elif e['t'] == 'd':
+                livek.discard(e['k'][0])
+        if not dead and livek:
+            evs.append({'t': 'open', 'k': [0]})    # the behaviour stops with live keys
+        cases.append(mux_case(pipes[pid - 1], evs, timescale=None))
+        model_logs.append({json.dumps(p): l for (p, l) in logs})
+    out.append({'module': 'MuxSystem', 'mode': 'simulation', 'behaviours': len(cases)})
+    return out, cases, model_logs
+
+
+def compare_with_model(traces, model_logs):
+    """log-for-log comparison of the real execution with the model behaviour it replays"""
+    diff = 0
+    for tr, ml in zip(traces, model_logs):
+        for t in tr['taps']:
+            real = [[e['t'], e['k'], e['v']] for e in t['evs']]
+            mod = ml.get(json.dumps(t['p']))
+            if mod is None or [list(x) for x in mod] != real:
+                diff += 1
+                break
+    return diff
+
+
 # ======================================================================= registry
+
+def _scan_add(reduce=False):
+    return G.op_scan('add', I(0), reduce=reduce)
+
+
+MODEL = {
+    'C02': dict(pipes=lambda: [
+        [G.op_roll(2, 2, [_scan_add()])], [G.op_roll(3, 1, [{'op': 'count', 'reduce': True}])],
+        [G.op_split('modc', 2, [G.op_simple('batch', n=2)])], [G.op_split('modc', 2, [G.op_simple('first')])],
+        [G.op_roll(2, 2, [G.op_tee('zip', [[G.op_filter('ltc', 1)], [G.op_filter('gec', 1)]])])],
+        [G.op_simple('lag', n=2)], [G.op_simple('distinct', f=fn('id'))],
+        [G.op_roll(2, 2, [G.op_group_by('modc', 2, [G.op_simple('to_list')])])],
+    ], deviations=['scan-no-reset', 'tee-reset-last-only']),
+    'C03': dict(pipes=lambda: [
+        [G.op_roll(2, 1, [G.op_split('modc', 2, [])])], [G.op_group_by('modc', 2, [G.op_roll(2, 2, [])])],
+        [G.op_tee('merge', [[G.op_roll(2, 2, [])], []])], [G.op_split('modc', 2, [G.op_group_by('modc', 2, [])])],
+        [G.op_roll(1, 2, [G.op_filter('false')])], [G.op_roll(3, 2, [])],
+    ], deviations=[]),
+    'C04': dict(pipes=lambda: [
+        [G.op_group_by('modc', 2, [])], [G.op_group_by('id', 0, [G.op_simple('to_list')])],
+        [G.op_roll(2, 2, [G.op_group_by('modc', 2, [])])],
+        [G.op_group_by('modc', 2, [G.op_group_by('id', 0, [{'op': 'count', 'reduce': True}])])],
+    ], deviations=[]),
+    'C05': dict(pipes=lambda: [[G.op_roll(w, s, [])] for (w, s) in
+                               [(1, 1), (2, 1), (3, 1), (3, 2), (2, 3), (2, 2), (3, 3), (1, 3)]]
+                + [[G.op_roll(2, 1, [G.op_roll(2, 2, [])])]],
+                deviations=['roll-close-ring-order']),
+    'C06': dict(pipes=lambda: [
+        [G.op_split('modc', 2, [])], [G.op_split('divc', 2, [G.op_simple('to_list')])],
+        [G.op_roll(2, 2, [G.op_split('modc', 2, [])])], [G.op_split('modc', 2, [G.op_split('divc', 2, [])])],
+    ], deviations=[]),
+    'C07': dict(kind='ts', pipes=lambda: [
+        [G.op_time_split(2, -1, False, True, [])], [G.op_time_split(-1, 1, False, True, [])],
+        [G.op_time_split(2, 1, True, True, [])], [G.op_time_split(3, 2, True, False, [])],
+    ], deviations=[]),
+    'C08': dict(pipes=lambda: [
+        [G.op_tee(j, [[G.op_filter('ltc', 1)], [G.op_filter('gec', 1)]])] for j in ('zip', 'combine_latest', 'merge')]
+        + [[G.op_tee('zip', [[_scan_add()], [{'op': 'count', 'reduce': True}], []])],
+           [G.op_roll(2, 2, [G.op_tee('zip', [[G.op_filter('ltc', 1)], [G.op_filter('gec', 1)]])])],
+           [G.op_split('modc', 2, [G.op_tee('combine_latest', [[G.op_simple('take', n=1)], []])])],
+           [G.op_tee('merge', [[G.op_tee('zip', [[], [_scan_add()]])], [G.op_simple('last')]])]],
+        deviations=['tee-reset-last-only']),
+    'C09': dict(pipes=lambda: [
+        [_scan_add()], [_scan_add(True)], [G.op_scan('add', I(1), term='addc', tc=10)],
+        [G.op_scan('appendMut', ['l', []], reduce=True)], [{'op': 'count', 'reduce': False}],
+        [G.op_agg('mean', False)], [G.op_agg('max', True)], [G.op_simple('batch', n=2)],
+        [G.op_simple('duc', f=fn('id'))], [G.op_simple('to_list')],
+    ], deviations=['scan-no-reset']),
+    'C10': dict(pipes=lambda: [
+        [G.op_simple('first')], [G.op_simple('last')], [G.op_simple('take', n=2)],
+        [G.op_simple('distinct', f=fn('id'))], [G.op_simple('lag', n=1)], [G.op_simple('lag', n=2)],
+        [G.op_simple('pad_start', n=1, v=NONE)], [G.op_simple('pad_end', n=2, v=I(9))],
+        [G.op_simple('start_with', p=[I(7)])], [G.op_simple('batch', n=1)], [G.op_simple('batch', n=3)],
+    ], deviations=[]),
+    'C11': dict(pipes=lambda: [
+        [G.op_simple('batch', n=1)], [_scan_add()], [G.op_roll(3, 1, [G.op_agg('sum', True)])],
+        [G.op_split('modc', 2, [G.op_simple('to_list')])],
+        [G.op_tee('zip', [[_scan_add()], [{'op': 'count', 'reduce': False}]])],
+        [G.op_simple('take', n=1), G.op_simple('to_list')],
+    ], deviations=[]),
+    'C13': dict(pipes=lambda: [
+        [G.op_map('failIf', 1), G.op_simple('ignore'), _scan_add()],
+        [G.op_map('failIf', 1), {'op': 'errmap', 'f': fn('errconst', 7)}, G.op_simple('lag', n=1)],
+        [G.op_filter('failIfP', 1), {'op': 'errmap', 'f': fn('errcode')}],
+        [G.op_scan('failAdd', I(0), c=1), G.op_simple('ignore'), G.op_simple('to_list')],
+        [G.op_group_by('modc', 2, [G.op_map('failIf', 1)])],
+    ], deviations=[]),
+}
 
 PROPS = {
     'C02': dict(cases=cases_c02, relevant=relevant_c02, nontrivial=nontrivial_c02, lsc=['int'],
@@ -871,13 +1037,21 @@ def main(prop):
         rng = random.Random(C.seed() * 1000003 + int(prop[1:]))
         lsc = run_lsc(P['lsc'], thorough)
         V.phase('model checking (list semantics)')
-        extra_mc = []
-        if 'model' in P:
-            extra_mc = P['model'](V, thorough)
+        extra_mc, replay_cases, model_logs = [], [], []
+        if prop in MODEL:
+            Mo = MODEL[prop]
+            extra_mc, replay_cases, model_logs = model_phase(V, prop, Mo['pipes'](), thorough,
+                                                             kind=Mo.get('kind', 'int'),
+                                                             deviations=Mo['deviations'])
             V.phase('model checking (implementation model)')
-        cases = P['cases'](rng, thorough)
+        cases = replay_cases + P['cases'](rng, thorough)
         stats = {}
         traces = MC.judge(V, cases, P['relevant'], stats, family=prop)
+        out_of_sync = compare_with_model(traces[:len(replay_cases)], model_logs)
+        if out_of_sync:
+            V.note('impl_model_in_sync=false: %d of %d replayed model behaviours differ log for log from '
+                   'the real execution (the contracts still judge the real execution)'
+                   % (out_of_sync, len(replay_cases)))
         V.phase('real executions + trace validation')
         if 'extra' in P:
             P['extra'](V, rng, thorough, stats)
@@ -903,6 +1077,8 @@ def main(prop):
                                                               'traces', 'rejected', 'untapped_runs',
                                                               'plain_path_traces')},
             'distinct_pipelines': len({json.dumps(t['pipe'], sort_keys=True) for t in traces}),
+            'tlc_behaviours_replayed': len(replay_cases),
+            'impl_model_in_sync': out_of_sync == 0,
             'source_events': sum(len(MC.log_of(t, [0])) for t in traces),
         }
         return V.finish('model_checking', coverage, assumptions=[
